@@ -25,6 +25,7 @@ type c17cJob struct {
 	Scenario string `json:"scenario"` // cancel | timeout | admission
 	Query    string `json:"query"`
 	PauseAt  int64  `json:"pauseAt"`
+	Aux      int64  `json:"aux,omitempty"` // timeout-watcher: lock operation of the watcher goroutine at which it is held
 }
 
 var c17cQueries = []string{"* | stats count", "*", "* | stats count by a", "a=1 | sort a | head 1"}
@@ -111,6 +112,15 @@ func c17cRun(w *kernel.Worker, j *c17cJob, rep *kernel.Report) (*Fail, error) {
 		args["pre"] = []schedStep{{Op: "timeoutsecs", Ms: 1}}
 		args["y"] = []schedStep{{Op: "sleep", Ms: 1300}, {Op: "query", Query: mk(zText)}}
 		args["post"] = []schedStep{{Op: "timeoutsecs", Ms: 300}, {Op: "sleep", Ms: 30}, {Op: "tables"}}
+	case "timeout-watcher":
+		// the query is held; its 1 s timeout fires; the watcher goroutine (started by the admission loop, so not part of
+		// the query's goroutine tree) is held at its j-th lock operation while another client starts a query
+		args["pre"] = []schedStep{{Op: "timeoutsecs", Ms: 1}}
+		args["y"] = []schedStep{{Op: "bgquery", Query: mk(zText)}, {Op: "sleep", Ms: 150}, {Op: "tables"}}
+		args["post"] = []schedStep{{Op: "bgwait", Ms: 8000}, {Op: "timeoutsecs", Ms: 300}, {Op: "sleep", Ms: 30}, {Op: "tables"}}
+		args["auxCreator"] = "setupTimeoutCancelFunc"
+		args["auxPauseAt"] = j.Aux
+		args["auxWaitMs"] = 1500
 	case "admission":
 		args["pre"] = []schedStep{{Op: "maxrunning", Ms: 1}}
 		args["y"] = []schedStep{{Op: "bgquery", Query: mk(zText)}, {Op: "sleep", Ms: 60}, {Op: "tables"}, {Op: "cancelwaiting"}, {Op: "sleep", Ms: 60}, {Op: "tables"}}
@@ -137,6 +147,27 @@ func c17cRun(w *kernel.Worker, j *c17cJob, rep *kernel.Report) (*Fail, error) {
 	}
 	ctx := fmt.Sprintf("scenario %s, query %q held at its lock operation %d (%s)", j.Scenario, j.Query, j.PauseAt, where)
 	fs := &Fails{}
+	if j.Scenario == "timeout-watcher" {
+		asite := r.AuxPausedAt
+		if i := strings.LastIndex(asite, ":"); i > 0 {
+			asite = asite[:i]
+		}
+		ctx += fmt.Sprintf(", timeout watcher held at its lock operation %d (%s)", j.Aux, r.AuxPausedAt)
+		if r.AuxPaused {
+			rep.Outcome("c/timeout-watcher/held@" + asite)
+		}
+		if r.XHung || r.YHung {
+			w.Kill() // goroutines of this schedule are stuck: the instance is unfit for reuse
+			who := "the timed-out query never returned"
+			if r.YHung {
+				who = "a query started by another client meanwhile was never answered"
+				if r.XHung {
+					who += ", nor did the timed-out query return"
+				}
+			}
+			return &Fail{FP: "C17/lifecycle-hang/timeout-watcher/" + asite, What: ctx + ": " + who + " (25 s after everything was released)"}, nil
+		}
+	}
 	if len(r.X) != 1 {
 		return &Fail{FP: "C17/harness-c-shape", What: ctx + ": " + jstr(r)}, nil
 	}
@@ -147,6 +178,15 @@ func c17cRun(w *kernel.Worker, j *c17cJob, rep *kernel.Report) (*Fail, error) {
 	}
 	final := r.Post[len(r.Post)-1]
 	switch j.Scenario {
+	case "timeout-watcher":
+		b := r.Post[0]
+		bAns := "not answered within 8 s"
+		if b.Err == "" {
+			bAns = c17cAnswer(zText, b.Query)
+		}
+		if bAns != "complete" {
+			fs.Add("C17/other-query-affected/timeout-watcher", ctx+": another client's query ("+zText+") was answered: "+bAns)
+		}
 	case "cancel", "timeout":
 		z := r.Y[1]
 		if a := c17cAnswer(zText, z.Query); a != "complete" {
@@ -233,8 +273,39 @@ func c17Lifecycle(rep *kernel.Report, budget *kernel.Budget) {
 	}
 	dw.Close()
 	rep.Set("c_lock_operations_per_query", points)
+	// lock operations of the timeout watcher goroutine (measured: query held at its 5th-last lock operation until the timeout fires)
+	auxPoints := int64(0)
+	{
+		aw, err := pool.BootWorker()
+		if err == nil {
+			idx := fmt.Sprintf("c17cd%d", atomic.AddInt64(&c17cSeq, 1))
+			_ = ingestStep(aw, 0, idx, []string{fmt.Sprintf(`{"timestamp":%d,"id":"e1","a":1}`, T0), fmt.Sprintf(`{"timestamp":%d,"id":"e2","a":2}`, T0+1)})
+			_ = aw.Call("flush", nil, nil)
+			var r schedRes
+			qq := Q{Index: idx, Text: queries[0], Start: T0 - 10, End: T0 + 1000, Size: 100}
+			k := points[queries[0]] - 5
+			if k < 1 {
+				k = 1
+			}
+			_ = aw.CallT("schedrun", map[string]interface{}{"pre": []schedStep{{Op: "timeoutsecs", Ms: 1}}, "x": []schedStep{{Op: "query", Query: &qq}}, "y": []schedStep{{Op: "sleep", Ms: 300}},
+				"post": []schedStep{{Op: "timeoutsecs", Ms: 300}}, "pauseAt": k, "auxCreator": "setupTimeoutCancelFunc", "auxPauseAt": 0, "auxWaitMs": 1500}, &r, 60*time.Second)
+			auxPoints = r.AuxPoints
+			rep.Sample(map[string]interface{}{"lock_operations_of_the_timeout_watcher": r.AuxLabels})
+			aw.Close()
+		}
+	}
+	rep.Set("c_lock_operations_of_timeout_watcher", auxPoints)
 	d := &Driver[c17cJob]{Rep: rep, Pool: pool, Budget: budget,
 		Enumerate: func(emit func(c17cJob)) {
+			stride := int64(2)
+			if rep.Tier == "thorough" {
+				stride = 1
+			}
+			for k := int64(1); k <= points[queries[0]]; k += stride {
+				for a := int64(1); a <= auxPoints; a++ {
+					emit(c17cJob{Scenario: "timeout-watcher", Query: queries[0], PauseAt: k, Aux: a})
+				}
+			}
 			for _, s := range scen {
 				qs := queries
 				if s == "timeout" && rep.Tier != "thorough" {
